@@ -24,6 +24,7 @@ ap.add_argument("--confirm", default="/tmp/wt/confirm")
 ap.add_argument("--also", default="", help="other properties whose checks should be run against the patch, comma separated")
 ap.add_argument("--manual-json", default=None)
 ap.add_argument("--note", default="")
+ap.add_argument("--as", dest="as_k", default=None, help="index to store the seed under (default: k)")
 a = ap.parse_args()
 src = a.src or f"/tmp/wt/out/{a.prop}"
 cf = json.loads(a.manual_json) if a.manual_json else json.load(open(f"{a.confirm}/{a.prop}_{a.k}.json"))
@@ -31,7 +32,7 @@ ok = cf.get("demo_clean_rc") == 0 and cf.get("demo_patched_rc") not in (0, None,
 if not ok:
     print("NOT CONFIRMED:", cf)
     sys.exit(1)
-dst = f"/verif/seeded/{a.prop}-{a.k}"
+dst = f"/verif/seeded/{a.prop}-{a.as_k or a.k}"
 os.makedirs(dst, exist_ok=True)
 patch = f"{src}/patch_{a.k}.diff"
 # keep the patch in a form that applies to /repo HEAD
@@ -56,14 +57,14 @@ out = subprocess.run(["/verif/tools/try_patch.sh", f"{dst}/patch.diff"] + props,
 detected = sorted({ln.strip().split(" at ")[0] for ln in out.splitlines() if ln.startswith("  [")})
 verdicts = [ln.split(" replay=")[0] for ln in out.splitlines() if ln.startswith(("VIOLATION", "OK ", "ANALYSIS-ERROR"))]
 meta = {
-    "seed": f"{a.prop}-{a.k}",
+    "seed": f"{a.prop}-{a.as_k or a.k}",
     "breaks_property": am.get("property", a.prop),
     "file": am.get("file"),
     "function": am.get("function"),
     "summary": am.get("summary"),
     "needs_to_manifest": am.get("needs_to_manifest"),
     "why_the_existing_tests_pass": am.get("why_tests_pass"),
-    "origin": "written by a sub-agent that saw only the property text and a scratch worktree of /repo (pinned commit); confirmed independently as recorded below",
+    "origin": "written by a sub-agent that saw only the property text and a scratch worktree of /repo; confirmed independently as recorded below",
     "confirmed": {
         "repo_head": cf.get("repo_head"),
         "what_was_run": [
